@@ -121,6 +121,10 @@ def run(cx):
     cx.extra["boards"] = {p: len(b) for p, b in plats.items()}
 
     rule_validate(cx, m, "C13-VALIDATE")
+    # the project writer keeps no state between calls: a module-level list that grows would leak one project's libraries
+    # into the next
+    from . import c10
+    c10.rule_global_state(cx, "C13-STATE", [m], floor=1, only={"_format_lib_section", "write_project", "validate_platform_board", "_sanitize_env_name"})
 
     # ---- C13-LIBS ----------------------------------------------------------------------------
     r = cx.rule("C13-LIBS", "_format_lib_section = drop falsy, de-duplicate in first-seen order, one indented continuation line each; '' when nothing remains", floor=100, exhaustive=True)
